@@ -130,11 +130,15 @@ Proof. destruct l; cbn; [auto|]. intros H; inversion H; assumption. Qed.
 Lemma wf_get_partial s name t : wf_state s -> get_partial s name = Some t -> wf_template t.
 Proof.
   intros (Hp & Hst & _). unfold get_partial. destruct (str_eqb name PARTIAL_BLOCK).
-  - destruct (Z.ltb (s_pb_depth s) 0); [discriminate|]. apply Forall_nth_error. exact Hst.
+  - unfold current_pb. destruct (_ || _); [discriminate|].
+    destruct (nth_error (s_pb_stack s) _) as [e|] eqn:E; [|discriminate].
+    cbn [option_map]. intros H; inversion H; subst.
+    exact (Forall_nth_error _ _ _ _ Hst E).
   - apply wf_named_get. exact Hp.
 Qed.
 
-Lemma wfs_push_pb s t : wf_state s -> wf_template t -> wf_state (set_pb_stack s (t :: s_pb_stack s)).
+Lemma wfs_push_pb s t d :
+  wf_state s -> wf_template t -> wf_state (set_pb_stack s ((t, d) :: s_pb_stack s)).
 Proof.
   intros (Hp & Hst & Hdev) Ht. split; [|split]; cbn [s_partials s_pb_stack s_dev set_pb_stack]; auto.
 Qed.
@@ -482,8 +486,8 @@ Proof.
         * intros E. rewrite E in Hd. exact Hd. }
   set (s2 := if str_eqb (dv_name d) PARTIAL_BLOCK then _ else _).
   assert (Hs2 : wf_state s2).
-  { subst s2. destruct (str_eqb (dv_name d) PARTIAL_BLOCK); [exact Hs1|].
-    destruct (Z.ltb 0 (s_pb_depth s1)); exact Hs1. }
+  { subst s2. destruct (str_eqb (dv_name d) PARTIAL_BLOCK); [|exact Hs1].
+    destruct (current_pb s1) as [[? ?]|]; exact Hs1. }
   clearbody s2.
   eapply w_rbind with (Q1 := anyv); [repeat w_step IH|].
   intros merged s3 Hs3 _.
